@@ -25,7 +25,7 @@ func init() {
 			ruleC03R8(r)
 			ruleGoroutinesOutliveRequestCtx(r, "R10", "/iscp", "/wire")
 			ruleC03R11(r)
-			ruleCoupledFields(r, "R13", "/iscp", "/wire", "/transport/reconnect", "/transport/multi", "/transport/quic", "/transport/webtransport", "/transport/websocket")
+			ruleCoupledFields(r, "R13", "/iscp", "/wire", "/transport/reconnect", "/transport/multi", "/transport/quic", "/transport/webtransport", "/transport/websocket", "/transport", "/transport/compress", "/internal/segment", "/internal/retry", "/internal/xio", "/internal/ch", "/encoding", "/encoding/protobuf", "/encoding/json", "/encoding/convert", "/message", "/log", "/errors")
 			le03 := newLockEngine(r.P)
 			ruleNoReentrantLock(r, le03, "R12", "/iscp")
 			ruleLockPairingFor(r, le03, "R9", "the read path never wedges on the stream mutex: every function of iscp.Downstream that takes a lock releases it on every path (an unknown alias reported as an error must not leave the mutex held)", func(fn *ssa.Function) bool {
